@@ -190,9 +190,19 @@ def analyze(ctx, want):
                 frm, astarg, to = a[1], a[2], a[3]
                 ok_from = S.vstr(frm).endswith(".end_state") or frm == ("adt", "internal::ids::StateID", "StateID", (("int", 0),)) or "default()" in S.vstr(frm)
                 ok_to = to == ns[0][4]
-                same_node = S.mentions(astarg, lambda x: x == ("sym", "ast"))
-                if v in ("Literal", "Dot"):
-                    same_node = same_node and astarg[0] == "adt" and astarg[2] == v
+                # the transition is labelled with the matched node itself: `ast` (cloned — the engine treats clone as the
+                # identity), or the same variant rebuilt from the same payload; NOT any value computed from it (a rewritten
+                # or "simplified" class denotes another set unless somebody proves otherwise)
+                bare = astarg
+                n_ = 0
+                while bare[0] in ("ref", "deref") and n_ < 6:
+                    b2 = ex.deref_val(p, bare) if bare[0] == "ref" else bare[1]
+                    if b2 == bare:
+                        break
+                    bare, n_ = b2, n_ + 1
+                same_node = bare == ("sym", "ast")
+                if not same_node and bare[0] == "adt" and bare[2] == v and len(bare[3]) == 1:
+                    same_node = re.match(r"^[&*(]*\(ast as %s\)\.0\)*$" % v, S.fstr(bare[3][0])) is not None
                 ok = ok_from and ok_to and same_node
                 det = "add_transition(from=%s, %s, to=%s)" % (S.vstr(frm)[:50], S.vstr(astarg)[:60], S.vstr(to)[:40])
                 # end state of the result is the new state
